@@ -78,6 +78,8 @@ def build_case(rs, budget=None, variant=0, direct=False, cid=0):
             witness.append(name)
         elif r["script"] == "reference":
             ref_inputs.append({"tx": 0x90 + j, "ix": 1, "ref_script": name})
+        elif r["script"] == "inputref":          # carried by the output of an input that is spent (a key input added for it)
+            inputs.append({"tx": 0x70 + j, "ix": 2, "ref_script": name})
         if r["purpose"] == "spend":
             inp = {"tx": 0x50 - j, "ix": j % 2, "script": name}        # later redeemers sort earlier
             if r["datum"] == "inline":
@@ -108,7 +110,7 @@ def build_case(rs, budget=None, variant=0, direct=False, cid=0):
 
 
 def shape(r):
-    return (r["kind"], r["lang"], r["purpose"], r["datum"], r["script"] == "reference")
+    return (r["kind"], r["lang"], r["purpose"], r["datum"], r["script"] in ("reference", "inputref"))
 
 
 def c19(tier):
@@ -119,7 +121,7 @@ def c19(tier):
     if not r.ok:
         raise vlib.ToolError("MC_TxSim failed: %s\n%s" % (r.error, r.out[-1200:]))
     txs = r.tagged("REPLAY")
-    if len(txs) < 20000:
+    if len(txs) < 30000:
         raise vlib.ToolError("MC_TxSim printed only %d transactions" % len(txs))
     states, generated = r.distinct, r.generated
     if tier == "quick":
